@@ -82,36 +82,10 @@ fn sender_clone_overflow_panics() {
     core::mem::forget((s, r, c));
 }
 
-// TIER: thorough
-#[kani::proof]
-fn shared_futures_protocol() {
-    use core::future::Future;
-    use futures_core::future::FusedFuture;
-    // futures of the shared flavour keep an Arc handle: Pending keeps it, Ready gives it up
-    let (s, r) = pair();
-    let wk = unsafe { core::task::Waker::from_raw(core::task::RawWaker::new(core::ptr::null(), &NOOP)) };
-    let mut cx = core::task::Context::from_waker(&wk);
-    let mut rf = core::mem::ManuallyDrop::new(r.receive());
-    assert!(!rf.is_terminated(), "[C17] is_terminated() is false from creation");
-    let p = unsafe { core::pin::Pin::new_unchecked(&mut *rf) }.poll(&mut cx);
-    assert!(p.is_pending() && !rf.is_terminated(), "[C17] a pending shared receive future is not terminated (it puts its handle back)");
-    let v: u8 = kani::any();
-    let mut sf = core::mem::ManuallyDrop::new(s.send(v));
-    assert!(!sf.is_terminated(), "[C17] is_terminated() is false from creation");
-    let p = unsafe { core::pin::Pin::new_unchecked(&mut *sf) }.poll(&mut cx);
-    assert!(p.is_ready() && sf.is_terminated(), "[C17] a completed shared send future is terminated");
-    let p = unsafe { core::pin::Pin::new_unchecked(&mut *rf) }.poll(&mut cx);
-    assert!(matches!(p, core::task::Poll::Ready(Some(x)) if x == v) && rf.is_terminated(), "[C17] [C08] the shared receive future completes once, with the value that was sent");
-    // a pending future outlives its handles: it keeps the channel state alive and still unregisters on drop
-    let mut rf2 = core::mem::ManuallyDrop::new(r.receive());
-    let _ = unsafe { core::pin::Pin::new_unchecked(&mut *rf2) }.poll(&mut cx);
-    let probe = s.inner.clone();
-    drop(r);
-    drop(s);
-    assert!(probe.channel.inner.lock().is_closed, "[C11] dropping the last handles closes the channel");
-    let p = unsafe { core::pin::Pin::new_unchecked(&mut *rf2) }.poll(&mut cx);
-    assert!(matches!(p, core::task::Poll::Ready(None)) && rf2.is_terminated(), "[C11] [C17] a pending future that outlives its handles completes with None after the implicit close");
-}
+// (A pending receive future that outlives both handles -- and the full scenario "pending receive, send, receive" in ONE
+// harness -- need 25 to 40+ GB in CBMC and are not run.  Decided in pieces instead: shared_receive_pending_keeps_its_handle,
+// shared_send_then_receive_complete_once, last_sender_drop_* / receiver_clone_and_last_drop_* (implicit close), and the
+// future's poll on a closed channel by Verus (chanfut_shared_glue + mpmc).)
 
 unsafe fn nw_clone(_: *const ()) -> core::task::RawWaker {
     core::task::RawWaker::new(core::ptr::null(), &NOOP)
@@ -119,26 +93,8 @@ unsafe fn nw_clone(_: *const ()) -> core::task::RawWaker {
 unsafe fn nw_noop(_: *const ()) {}
 static NOOP: core::task::RawWakerVTable = core::task::RawWakerVTable::new(nw_clone, nw_noop, nw_noop, nw_noop);
 
-// TIER: thorough
-#[kani::proof]
-fn shared_stream_ends_once() {
-    let (s, r) = pair();
-    let wk = unsafe { core::task::Waker::from_raw(core::task::RawWaker::new(core::ptr::null(), &NOOP)) };
-    let mut cx = core::task::Context::from_waker(&wk);
-    let v: u8 = kani::any();
-    let _ = s.try_send(v);
-    let mut st = core::mem::ManuallyDrop::new(r.into_stream());
-    assert!(!st.is_terminated(), "[C17] a new stream is not terminated");
-    let p = unsafe { core::pin::Pin::new_unchecked(&mut *st) }.poll_next(&mut cx);
-    assert!(matches!(p, core::task::Poll::Ready(Some(x)) if x == v) && !st.is_terminated(), "[C17] a stream yields exactly the values successive receives would");
-    let p = unsafe { core::pin::Pin::new_unchecked(&mut *st) }.poll_next(&mut cx);
-    assert!(p.is_pending() && !st.is_terminated(), "[C17] a pending stream is not terminated");
-    drop(s); // last sender: implicit close
-    let p = unsafe { core::pin::Pin::new_unchecked(&mut *st) }.poll_next(&mut cx);
-    assert!(matches!(p, core::task::Poll::Ready(None)) && st.is_terminated(), "[C17] [C11] the stream ends once the channel is closed and drained, and reports terminated");
-    let p = unsafe { core::pin::Pin::new_unchecked(&mut *st) }.poll_next(&mut cx);
-    assert!(matches!(p, core::task::Poll::Ready(None)) && st.is_terminated(), "[C17] a finished stream stays finished");
-}
+// (yield / pend / end-after-the-last-sender-dropped in ONE harness needs 25 to 40+ GB in CBMC and is not run:
+// shared_stream_yields_then_pends, shared_stream_ends_after_close and last_sender_drop_* decide the pieces.)
 
 #[kani::proof]
 fn last_sender_drop_n1() {
@@ -225,7 +181,7 @@ fn shared_stream_yields_then_pends() {
     core::mem::forget(s);
 }
 
-// TIER: thorough
+// TIER: thorough heavy (18 GB, 6 min: run on its own after the other harnesses)
 #[kani::proof]
 fn shared_stream_ends_after_close() {
     let (s, r) = pair();
